@@ -6,6 +6,8 @@
 (*            [tree    catalogue index (C17_Trees!Cat) - what it was built *)
 (*                     from / what the pickle it came from was made of,    *)
 (*             origin  "built" (from source, in p) | "unpickled",          *)
+(*             wrap    how it arrived: "" by itself | "dict" as the key of *)
+(*                     a pickled {o: 1} | "set" inside a frozenset,        *)
 (*             cached  the hash id sitting in the object's _hash_value     *)
 (*                     slot (0: slot empty) - hidden implementation state, *)
 (*             lasth   the last value hash() returned for it in p (0: none)*)
@@ -34,6 +36,9 @@ VARIABLES heap, hfun, msgs, digs, obs
 mvars == << heap, hfun, msgs, digs, obs >>
 
 Proc == 1..NProc
+\* "phw": pymbolic.mapper.persistent_hash.PersistentHashWalkMapper over sha256
+\* "kb" : pytools.persistent_dict.KeyBuilder (what the deprecation note of the
+\*        former points to: dataclass nodes are keyed natively)
 DigestKinds == {"phw", "kb"}
 
 NoObs == [a |-> "None"]
